@@ -38,3 +38,24 @@ type vJobKey struct{}
 func vJobCtx(ctx context.Context, j job) context.Context {
 	return context.WithValue(ctx, vJobKey{}, j)
 }
+
+// vByJobID owns the iteration order of `range s.inProgress` (a Go map): under the scheduler the
+// order in which the coordinator locks the workers' states must be the same in every replay.
+// vByJobIDCalls lets the schedule search see whether the rewrite is active.
+var vByJobIDCalls int
+
+func vByJobID(m map[int]func() workerState) func(func(int, func() workerState) bool) {
+	return func(yield func(int, func() workerState) bool) {
+		vByJobIDCalls++
+		ids := make([]int, 0, len(m))
+		for id := range m {
+			ids = append(ids, id)
+		}
+		sort.Ints(ids)
+		for _, id := range ids {
+			if !yield(id, m[id]) {
+				return
+			}
+		}
+	}
+}
